@@ -15,7 +15,7 @@ from collections import Counter
 
 import numpy as np
 
-from .. import carrier, cover, gen, grospec, ref
+from .. import carrier, core, cover, gen, grospec, ref
 
 LEVEL = 'exploration'
 JOBS = {'quick': 2, 'thorough': 16}
@@ -25,7 +25,7 @@ REQUIRED_CLASSES = ('layout:blocks', 'layout:alternating', 'layout:same-name-dif
                     'layout:resid-wrap', 'layout:constant-name-increasing-number', 'vel:yes', 'vel:no', 'vel:some-atoms-at-rest', 'box:triclinic-lower', 'box:triclinic-general', 'values:full-width-numbers', 'atom-numbers:restarts', 'atom-numbers:arbitrary', 'atom-numbers:offset',
                     'op:index', 'op:negative-index', 'op:slice', 'op:slice-negative-step', 'op:next', 'op:out-of-range',
                     'object:fresh-never-walked', 'object:walked-completely-before', 'object:view-of-a-system-with-topology',
-                    'carrier:handle', 'carrier:handle-relative-then-chdir', 'carrier:relative-path')
+                    'carrier:handle', 'carrier:handle-relative-then-chdir', 'carrier:relative-path', 'settings:warnings-as-errors')
 RULE = ('files: residue layout class x residue sizes 1..12 x 1..400 residues (thorough: up to 5000) x velocities; access '
         'histories of up to 200 operations. Non-trivial: at least 3 residues and at least 2 residue kinds or sizes. '
         'distinct = distinct (layout, velocities, residue-count bucket, history signature)')
@@ -303,6 +303,10 @@ def _run_case(ctx, case, stack):
     history = []
     sig = Counter()
     nops = int(rng.integers(20, 201 if ctx.tier == 'thorough' else 81))
+    # the caller may run with warnings turned into errors: the unchanged view answers every access without a word
+    caller = core.next_settings(ctx, ('default', 'warnings-as-errors'))
+    w = dict(w, caller_settings=caller)
+    stack.enter_context(core.settings(caller))
     for step in range(nops):
         op = ['index', 'negative-index', 'slice', 'next', 'new-iter', 'len', 'out-of-range'][int(rng.choice(7, p=[.25, .15, .2, .25, .05, .05, .05]))]
         try:
